@@ -5,6 +5,7 @@ import Driver.C10
 import Driver.C03
 import Driver.C05
 import Driver.C09
+import Driver.C12
 /-!
 Line-protocol driver.  Reads one JSON object per line on stdin, each with a field `p`
 naming the property slice and an `id`; writes one JSON object per line with the same `id`
@@ -20,6 +21,7 @@ def dispatch (j : Json) : Json :=
   | "C03" => Driver.C03.handle j
   | "C05" => Driver.C05.handle j
   | "C09" => Driver.C09.handle j
+  | "C12" => Driver.C12.handle j
   | "C08" => Driver.C09.handle j
   | "C01" => Driver.C03.handle j
   | "C02" => Driver.C03.handle j
